@@ -143,7 +143,9 @@ def main():
 
     b = os.path.basename
     alphabet = ["..", ".", b(d["sub"]), b(f["in"][0]), b(d["sub"]) + "/" + b(f["s"][0]), b(f["s"][0]),
-                "../" + b(d["sib"]), "../" + b(d["outside"]), b(f["sibf"][0]), b(f["out"][0]), b(f["bad"][0]), ""]
+                "../" + b(d["sib"]), "../" + b(d["outside"]), b(f["sibf"][0]), b(f["out"][0]), b(f["bad"][0]), "", "~"]
+    # '~' is an ordinary name to a server; the home directory it would expand to is the outside directory with its marker files
+    os.environ["HOME"] = os.path.join(base, d["outside"])
     maxseg = arg["maxseg"]
     shard, nshard = arg.get("shard", 0), arg.get("nshard", 1)
     rnd = random.Random(arg.get("seed", 0) * 1000 + shard)
